@@ -177,6 +177,11 @@ class Gen:
 
     # ---- one rank ----------------------------------------------------------------------
     def gen_rank(self, rank: int, T: int, epoch: int) -> List[dict]:
+        # every rank numbers its correlation ids from (nearly) the same start, as real ranks do: ids overlap across ranks
+        if rank > 0:
+            self.next_corr = self.corr_base + 2 * rank
+        else:
+            self.corr_base = self.next_corr
         rng, p = self.rng, self.p
         host_pid = rng.choice([100, 4242, 7 + rank])
         n_threads = rng.randint(*p.n_threads)
@@ -427,10 +432,20 @@ def gen_sync_scenario(seed: int, case_no: int) -> dict:
     k1d = rng.randint(6, 40)
     k1e = k1s + k1d
     evs.append(X("kernel", rng.choice(COMPUTE_KERNELS + COMM_KERNELS), gpu_pid, s1, k1s, k1d, stream=s1, device=gpu_pid, correlation=c1))
+    # tie variant: a second launch inside operator 1 puts a kernel on another stream that ends in the same instant as k1; a device
+    # synchronisation then waits for both, and the two chains through k1 and through its twin weigh the same (two maximum-weight paths)
+    l1_end = evs[-2]["ts"] + evs[-2]["dur"]
+    tie_twin = rng.random() < 0.4 and l1_end + 2 <= t + d1
+    if tie_twin:
+        ct = corr[0]; corr[0] += 1
+        st = rng.choice([x for x in (7, 13, 20) if x != s1])
+        evs.append(X("cuda_runtime", "cudaLaunchKernel", host_pid, 1, l1_end, 1, correlation=ct))
+        kts = rng.randint(l1_end, max(l1_end, k1e - 1))
+        evs.append(X("kernel", rng.choice(COMPUTE_KERNELS), gpu_pid, st, kts, k1e - kts, stream=st, device=gpu_pid, correlation=ct))
     # the blocking call: starts after operator 1 and before k1 ends; returns when or after k1 ends
     sa = rng.randint(t + d1, max(t + d1, k1e - 2))
     sb = max(k1e + rng.randint(0, 3), sa + 1)        # the call lasts, and returns no earlier than k1 ends
-    dev_sync = rng.random() < 0.3
+    dev_sync = rng.random() < 0.3 or tie_twin
     cs = corr[0]; corr[0] += 1
     nested = rng.random() < 0.5
     if nested:
